@@ -12,6 +12,7 @@ import (
 	"go/token"
 	"go/types"
 	"os"
+	"reflect"
 	"path/filepath"
 	"sort"
 	"strings"
@@ -103,10 +104,21 @@ func (r *Report) viol(rule, key, pos, detail string)   { r.add(rule, key, pos, s
 func (r *Report) info(rule, key, pos, detail string)   { r.add(rule, key, pos, stInfo, detail) }
 func (r *Report) count(name string, n int)             { r.Counters[name] += n }
 
+var sharing = map[uintptr]bool{}
+
 // shareFrom runs another property's rules and takes over the obligations of the rules
 // named in mapping (their id -> the id they carry here): a clause that two properties
 // depend on is decided once and reported under both.
 func (r *Report) shareFrom(c *Ctx, check func(*Ctx, *Report), mapping map[string]string) {
+	// properties may depend on each other's clauses in both directions (C02 <-> C10): a check
+	// that is already running further up is not entered again - its own rules do not need the
+	// clauses it would import from the one that is asking
+	id := reflect.ValueOf(check).Pointer()
+	if sharing[id] {
+		return
+	}
+	sharing[id] = true
+	defer func() { sharing[id] = false }()
 	sub := newReport("shared")
 	check(c, sub)
 	for _, ob := range sub.Obs {
@@ -194,7 +206,7 @@ func load(repo string, tests bool) *Ctx {
 		known := baselineFuncs()
 		var overlay map[string][]byte
 		curPkgs, curFset := pkgs, c.Fset
-		for pass := 0; pass < 4; pass++ {
+		for pass := 0; pass < 6; pass++ {
 			var mod []*packages.Package
 			okTypes := true
 			packages.Visit(curPkgs, nil, func(p *packages.Package) {
